@@ -16,13 +16,13 @@ HARNESS = os.path.abspath(os.path.join(HERE, '..', 'witness', 'witness_harness.r
 
 SUITES = {
     'C01': ['pipeline', 'loop'], 'C02': ['loop', 'block'], 'C03': ['pipeline', 'loop', 'subs'], 'C04': ['loop', 'subs', 'twostores'],
-    'C05': ['channel', 'block'], 'C06': ['channel'], 'C07': ['pipeline', 'loop', 'subs', 'latereg'], 'C08': ['loop'], 'C09': ['subs'],
+    'C05': ['channel', 'block'], 'C06': ['channel', 'balance'], 'C07': ['pipeline', 'loop', 'subs', 'latereg'], 'C08': ['loop'], 'C09': ['subs'],
     'C10': ['channeled'], 'C11': ['pipeline'], 'C12': ['pipeline'], 'C14': ['iter'], 'C15': ['subs', 'loop'], 'C16': ['selector'],
-    'C17': ['builder'], 'C18': ['pipeline', 'loop', 'channel'], 'C19': ['twostores'],
+    'C17': ['builder'], 'C18': ['pipeline', 'loop', 'channel', 'balance'], 'C19': ['twostores'],
 }
 BOUNDS = ('pipeline: 0..2 middlewares x 4 verdicts x 3 hooks x 5 reducer chains x {0,2} subscribers; loop: 5 chains x {0,1,3} subscribers x '
           'capacities {1,2,16} x 5 action sequences (<= 7); channel: 3 policies x capacities 1..3 x bursts <= 2*cap+2; builder: all call '
-          'sequences <= 2 (+4 third calls) over 12 setters; selector: all sequences over 3 values up to length 5; subs: 1..4 subscribers x target x {stop, drop}; block: 2 entry points x capacities {1,2} with the reducer parked; channeled: 3 policies x capacities {1,3} x {unsubscribe, stop} with the subscriber parked; iter: 5 scenarios (<= 5 actions, Keep mix, full DropLatest queue at close); latereg: reducer / middleware / subscriber registered from another thread while an action is being reduced; twostores: stop of one store from a subscriber of another, equal/different names')
+          'sequences <= 2 (+4 third calls) over 12 setters; selector: all sequences over 3 values up to length 5; subs: 1..4 subscribers x target x {stop, drop}; block: 2 entry points x capacities {1,2} with the reducer parked; channeled: 3 policies x capacities {1,3} x {unsubscribe, stop} with the subscriber parked; iter: 5 scenarios (<= 5 actions, Keep mix, full DropLatest queue at close); latereg: reducer / middleware / subscriber registered from another thread while an action is being reduced; twostores: stop of one store from a subscriber of another, equal/different names; balance: the equations of C18 after stop() for 3 policies x capacities {1,2} x {0,2} dispatches after close x with/without a vetoing middleware, the reducer parked while the queue fills')
 
 
 def _run(repo, mode, work, timeout=900):
@@ -54,7 +54,7 @@ def _run(repo, mode, work, timeout=900):
 
 DEPTH = ['quick']
 THOROUGH_BOUNDS = ' | thorough tier adds: pipeline 3 middlewares x 4000 sampled verdict/removal assignments per chain (seeded by VERIF_SEED); channel capacities 1..6; builder all sequences <= 3; selector length <= 8'
-TIMED = ('loop', 'subs', 'block', 'channeled', 'iter', 'latereg', 'twostores')
+TIMED = ('loop', 'subs', 'block', 'channeled', 'iter', 'latereg', 'twostores', 'balance')
 
 
 def search(prop, failure, repo, work, seed):
@@ -87,7 +87,7 @@ def replay(path, repo):
     work = tempfile.mkdtemp(prefix='verif_replay_')
     try:
         cf = os.path.join(work, 'case.txt')
-        text = case if case.split()[0] in ('pipeline', 'loop', 'channel', 'builder', 'selector', 'subs', 'block', 'twostores', 'channeled', 'iter', 'latereg') else suite
+        text = case if case.split()[0] in ('pipeline', 'loop', 'channel', 'builder', 'selector', 'subs', 'block', 'twostores', 'channeled', 'iter', 'latereg', 'balance') else suite
         open(cf, 'w').write(text)
         r = _run(repo, 'replay:' + cf, work)
         if r.get('found'):
